@@ -3,9 +3,15 @@
 payload: {'cases': [{'ty': <type descriptor>, 'val': <JSON value>, 'engines': ['v0','v1','env']}],
           'units': {'as_list': [str], 'as_dict': [str]}}
 Type descriptors: 'str' 'int' 'float' 'bool' 'bytes' 'datetime' 'date' 'time' 'timedelta' 'decimal'
-'enum:Color' 'enum:Num' | ['opt', t] | ['list', t] | ['tupv', t] | ['tup', [t...]] | ['dict', 'str'|'int', t].
-Outcomes are encoded exactly like CoerceModel.show_res (see enc())."""
-import sys, os, dataclasses, enum, typing, datetime, decimal
+'enum:Color' 'enum:Num' 'enum:SColor' (str-mixin Enum) 'enum:Mode' (StrEnum) 'uuid'
+| ['opt', t] | ['list', t] | ['tupv', t] | ['tup', [t...]] | ['dict', k, t] (k any scalar)
+| ['ddict', k, t] defaultdict | ['odict', k, t] OrderedDict | ['set'|'fset'|'deque'|'seq'|'mseq'|'coll', t]
+| ['td', total, [[key, t, 'req'|'opt'|None]...]] TypedDict | ['nt', [[field, t, has_default]...]] NamedTuple
+| ['dc', [[field, t]...]] nested dataclass | ['union', [t...]].
+A JSON value {'__pairs__': [[k, v]...]} stands for a dict with arbitrarily typed keys.
+Outcomes are encoded exactly like CoerceModel.show_res (see enc()); 'ok_sorted' is the same with dict
+items and set elements sorted (TypedDict key order is not part of the property)."""
+import sys, os, dataclasses, enum, typing, datetime, decimal, collections, uuid
 sys.path.insert(0, os.path.dirname(os.path.abspath(__file__)))
 from _util import *
 
@@ -22,14 +28,36 @@ class Num(enum.Enum):
     TWO = 2
 
 
-SCALARS = {'str': str, 'int': int, 'float': float, 'bool': bool, 'bytes': bytes, 'datetime': datetime.datetime,
+class SColor(str, enum.Enum):
+    SRED = 'red'
+    SBLUE = 'Blue'
+
+
+class Mode(enum.StrEnum):
+    FAST = 'fast'
+    SLOW = 'Slow'
+
+
+SCALARS = {'enum:SColor': SColor, 'enum:Mode': Mode, 'uuid': uuid.UUID, 'str': str, 'int': int, 'float': float, 'bool': bool, 'bytes': bytes, 'datetime': datetime.datetime,
            'date': datetime.date, 'time': datetime.time, 'timedelta': datetime.timedelta,
            'decimal': decimal.Decimal, 'enum:Color': Color, 'enum:Num': Num}
+
+
+_gen = [0]
+_types = {}
 
 
 def mk_type(d):
     if isinstance(d, str):
         return SCALARS[d]
+    key = repr(d)
+    if key in _types:
+        return _types[key]
+    _types[key] = t = _mk_type(d)
+    return t
+
+
+def _mk_type(d):
     k = d[0]
     if k == 'opt':
         return typing.Optional[mk_type(d[1])]
@@ -40,8 +68,59 @@ def mk_type(d):
     if k == 'tup':
         return typing.Tuple[tuple(mk_type(x) for x in d[1])]
     if k == 'dict':
-        return typing.Dict[SCALARS[d[1]], mk_type(d[2])]
+        return typing.Dict[mk_type(d[1]), mk_type(d[2])]
+    if k == 'ddict':
+        return typing.DefaultDict[mk_type(d[1]), mk_type(d[2])]
+    if k == 'odict':
+        return typing.OrderedDict[mk_type(d[1]), mk_type(d[2])]
+    if k in ('set', 'fset', 'deque', 'seq', 'mseq', 'coll'):
+        gen = {'set': typing.Set, 'fset': typing.FrozenSet, 'deque': typing.Deque, 'seq': typing.Sequence,
+               'mseq': typing.MutableSequence, 'coll': typing.Collection}[k]
+        return gen[mk_type(d[1])]
+    if k == 'union':
+        return typing.Union[tuple(mk_type(x) for x in d[1])]
+    _gen[0] += 1
+    if k == 'td':
+        ann = {}
+        for name, t, flag in d[2]:
+            tp = mk_type(t)
+            if flag == 'req':
+                tp = typing.Required[tp]
+            elif flag == 'opt':
+                tp = typing.NotRequired[tp]
+            ann[name] = tp
+        return typing.TypedDict('TD%d' % _gen[0], ann, total=bool(d[1]))
+    if k == 'nt':
+        ns = {'__annotations__': {name: mk_type(t) for name, t, _ in d[1]}}
+        for name, _, has_default in d[1]:
+            if has_default:
+                ns[name] = None
+        return typing.NamedTupleMeta('NT%d' % _gen[0], (typing.NamedTuple,), ns) if False else \
+            _named_tuple('NT%d' % _gen[0], d[1])
+    if k == 'dc':
+        return dataclasses.make_dataclass('DC%d' % _gen[0], [(name, mk_type(t)) for name, t in d[1]])
     raise ValueError(d)
+
+
+def _named_tuple(name, fields):
+    src = ['class %s(typing.NamedTuple):' % name]
+    env = {'typing': typing}
+    for i, (f, t, has_default) in enumerate(fields):
+        env['_t%d' % i] = mk_type(t)
+        src.append('    %s: _t%d%s' % (f, i, ' = None' if has_default else ''))
+    exec('\n'.join(src), env)
+    return env[name]
+
+
+def decode_val(v):
+    """{'__pairs__': [[k, v]...]} -> dict with arbitrarily typed keys"""
+    if isinstance(v, list):
+        return [decode_val(x) for x in v]
+    if isinstance(v, dict):
+        if set(v) == {'__pairs__'}:
+            return {decode_val(k) if not isinstance(k, list) else tuple(k): decode_val(x) for k, x in v['__pairs__']}
+        return {k: decode_val(x) for k, x in v.items()}
+    return v
 
 
 def enc_float(f):
@@ -63,7 +142,7 @@ def hx(s):
     return (s.encode('utf-8', 'surrogateescape') if isinstance(s, str) else bytes(s)).hex()
 
 
-def enc(v):
+def enc(v, sort=False):
     t = type(v)
     if v is None:
         return 'N'
@@ -78,11 +157,17 @@ def enc(v):
     if t is bytes:
         return 'Y%s;' % hx(v)
     if t is list:
-        return 'L[%s]' % ''.join(enc(x) for x in v)
+        return 'L[%s]' % ''.join(enc(x, sort) for x in v)
     if t is tuple:
-        return 'T[%s]' % ''.join(enc(x) for x in v)
-    if t is dict:
-        return 'D[%s]' % ''.join(enc(k) + enc(x) for k, x in v.items())
+        return 'T[%s]' % ''.join(enc(x, sort) for x in v)
+    if t in (dict, collections.defaultdict, collections.OrderedDict):
+        items = [enc(k, sort) + enc(x, sort) for k, x in v.items()]
+        tag = {dict: 'D', collections.defaultdict: 'DD', collections.OrderedDict: 'OD'}[t]
+        return '%s[%s]' % (tag, ''.join(sorted(items) if sort else items))
+    if t in (set, frozenset):
+        return '%s{%s}' % ('Z' if t is set else 'FZ', ''.join(sorted(enc(x, sort) for x in v)))
+    if t is collections.deque:
+        return 'Q[%s]' % ''.join(enc(x, sort) for x in v)
     if t is datetime.datetime:
         return 'Pdt%s;' % hx(v.isoformat())
     if t is datetime.date:
@@ -93,8 +178,14 @@ def enc(v):
         return 'Ptd%s;' % hx('%d,%d,%d' % (v.days, v.seconds, v.microseconds))
     if t is decimal.Decimal:
         return 'Pdec%s;' % hx(str(v))
+    if t is uuid.UUID:
+        return 'Pu%s;' % hx(str(v))
     if isinstance(v, enum.Enum):
         return 'M%s;' % hx(v.name)
+    if isinstance(v, tuple) and hasattr(v, '_fields'):
+        return 'NT[%s]' % ''.join(enc(x, sort) for x in v)
+    if dataclasses.is_dataclass(v):
+        return 'DC[%s]' % ''.join(enc(getattr(v, f.name), sort) for f in dataclasses.fields(v))
     return 'U%s:%s;' % (t.__name__, hx(repr(v)[:80]))
 
 
@@ -137,6 +228,7 @@ def kind(e):
 
 def run_one(tyd, val, eng):
     from dataclass_wizard import fromdict
+    val = decode_val(val)
     try:
         cls = get_cls(tyd, eng)
     except BaseException as e:  # generation of the loader failed
@@ -155,7 +247,7 @@ def run_one(tyd, val, eng):
                 r = cls(c04v=val).c04v
         else:
             r = fromdict(cls, {'c04v': val}).c04v
-        return {'ok': enc(r)}
+        return {'ok': enc(r), 'ok_sorted': enc(r, True)}
     except BaseException as e:
         d = err_info(e)
         be = getattr(e, 'base_error', None)
